@@ -29,6 +29,10 @@ def check(ctx):
     repo = ctx.repo
     from . import generic as _gen
     _gen.language_traps(ctx, _gen.anchor_functions(repo, "C07"), "the property holds for every input, on every call")
+    _gen.raises_inside_domain(ctx, repo.fn("dataiter.aggregate.quantile"), "q", [0, 0.25, 0.5, 1, 0.0, 1.0], "a quantile NumPy accepts (0 <= q <= 1)",
+                              "quantile returns the documented statistic for every q in [0, 1]")
+    _gen.bool_mask_dtype(ctx, _gen.module_functions(repo, "dataiter.vector", "dataiter.aggregate"),
+                         "an empty vector yields the documented default")
     from . import generic
     # explicit bounds tests of the positional helpers: a test under which the default is returned WITHOUT trying the index may
     # hold only for indices Python indexing rejects (decided exactly by sa/intpred.py: the test touches index and length only
